@@ -182,6 +182,30 @@ fn generate(a: &Args) -> i32 {
             }
         }
     }
+    // a target type that reads NOTHING (legal): a stream of k well-formed, non-null documents is still a list of k
+    // items for the batch function and for the iterator (each document is skipped, none is handed out twice)
+    {
+        struct Nop;
+        impl<'de> serde::Deserialize<'de> for Nop {
+            fn deserialize<D: serde::Deserializer<'de>>(_d: D) -> Result<Self, D::Error> { Ok(Nop) }
+        }
+        let docs = ["a: 1\n", "[1, [2, {x: y}]]\n", "x\n", "k: &a [1]\nl: *a\n", "? [c]\n: d\n", "--- >\n folded\n"];
+        for k in 1..=4usize {
+            for start in 0..docs.len() {
+                let mut text = String::new();
+                for i in 0..k { if i > 0 || start % 2 == 0 { text.push_str("---\n"); } text.push_str(docs[(start + i) % docs.len()].trim_start_matches("--- ")); }
+                sink.count("nonconsuming_target.streams");
+                // the iterator first (bounded by `take`): if it does not end, the batch function would not return either
+                let mut rd = std::io::Cursor::new(text.as_bytes().to_vec());
+                let items = serde_saphyr::read::<_, Nop>(&mut rd).take(50).filter(|r| r.is_ok()).count();
+                let batch = if items >= 50 { Ok(Err("not called: the iterator does not end".to_string())) }
+                            else { crate::proto::catch(|| serde_saphyr::from_multiple::<Nop>(&text).map(|v| v.len()).map_err(|e| e.to_string())) };
+                if batch != Ok(Ok(k)) || items != k {
+                    fails.push(serde_json::json!({"id": "C11-nonconsuming-target-item-count", "what": "a target type that reads nothing: the number of items is not the number of documents", "input": text, "observed": format!("batch {batch:?}, iterator {items}"), "expected": format!("{k} and {k}")}));
+                }
+            }
+        }
+    }
     let lines: Vec<String> = fails.iter().map(|f| f.to_string()).collect();
     std::fs::write(format!("{}/docs.oracle.jsonl", a.out), lines.join("\n")).unwrap();
     let nt = sink.stats.get("distinct_nontrivial").copied().unwrap_or(0);
